@@ -947,7 +947,7 @@ def _alarm(sig, frm):
 
 
 signal.signal(signal.SIGALRM, _alarm)
-ncase = 230 if tier == "quick" else 1500
+ncase = 200 if tier == "quick" else 1500
 budget = 45 if tier == "quick" else 420
 runs = []
 for ci in (req.get("only") or range(ncase)):
